@@ -24,7 +24,8 @@ func init() {
 			"R9 at most two attempts: forwards to the underlying transport are not on a CFG cycle and no path contains more than two; " +
 			"R10 a 401 answered to a freshly issued token is surfaced as 403: after the second forward the response is returned as-is only under status != 401 or no token was acquired, otherwise its status is set to 403. " +
 			"R4b challengeFromResponse adopts a parsed header only on paths where its scheme is basic or bearer. " +
-			"R4c the remembered per-host challenge is only ever a challenge parsed from a response; R11 (as C07.R8) returned responses still have their body.",
+			"R4c the remembered per-host challenge is only ever a challenge parsed from a response; R11 (as C07.R8) returned responses still have their body. " +
+			"R12 challenge parameters are stored under lower-cased names.",
 		NotDecided: "correctness of the challenge parser on arbitrary header text, and the redirect behaviour of net/http's client for token requests (assumed not to forward Authorization across hosts), are not decided.",
 		Technique:  "static analysis: source-to-sink confinement on SSA def-use chains, dominance guards, CFG cycle/count analysis",
 	})
@@ -44,6 +45,7 @@ func runC11(c *core.Ctx) {
 	c11Confinement(c)
 	challengeSchemesFiltered(c, "C11.R4")
 	challengeStateIsAParsedChallenge(c, "C11.R4")
+	challengeParamsKeyedLowerCase(c, "C11.R12")
 	returnedResponseBodyOpen(c, "C11.R11")
 	hostKeying(c, "C11.R6")
 	c11RequestUnmodified(c, rt)
@@ -334,7 +336,12 @@ func c11Confinement(c *core.Ctx) {
 	}
 }
 
-func c11RequestUnmodified(c *core.Ctx, rt *ssa.Function) {
+func c11RequestUnmodified(c *core.Ctx, rt *ssa.Function) { requestUnmodified(c, rt, "C11.R7") }
+
+// requestUnmodified (C11.R7, C10.R8): RoundTrip works on a deep copy
+// (Request.Clone) of the caller's request; the Authorization header is never
+// written into the caller's own header map.
+func requestUnmodified(c *core.Ctx, rt *ssa.Function, rule string) {
 	req := rt.Params[1]
 	bad := 0
 	var visit func(v ssa.Value, d int)
@@ -354,7 +361,7 @@ func c11RequestUnmodified(c *core.Ctx, rt *ssa.Function) {
 					case *ssa.Store:
 						if y.Addr == ssa.Value(x) {
 							bad++
-							c.Fail("C11.R7", "RoundTrip/caller-request-mutated", y.Pos(), "a field of the caller's *http.Request is assigned")
+							c.Fail(rule, "RoundTrip/caller-request-mutated", y.Pos(), "a field of the caller's *http.Request is assigned")
 						}
 					case *ssa.UnOp:
 						// a loaded map/pointer (Header, URL, Body): only reads are allowed on it
@@ -364,12 +371,12 @@ func c11RequestUnmodified(c *core.Ctx, rt *ssa.Function) {
 									n := facts.CalleeName(ci.Common())
 									if strings.HasSuffix(n, "Header).Set") || strings.HasSuffix(n, "Header).Add") || strings.HasSuffix(n, "Header).Del") {
 										bad++
-										c.Fail("C11.R7", "RoundTrip/caller-request-mutated", ci.Pos(), "a header of the caller's request is modified")
+										c.Fail(rule, "RoundTrip/caller-request-mutated", ci.Pos(), "a header of the caller's request is modified")
 									}
 								}
 								if _, ok := r3.(*ssa.MapUpdate); ok {
 									bad++
-									c.Fail("C11.R7", "RoundTrip/caller-request-mutated", r3.Pos(), "a header of the caller's request is modified")
+									c.Fail(rule, "RoundTrip/caller-request-mutated", r3.Pos(), "a header of the caller's request is modified")
 								}
 							}
 						}
@@ -393,7 +400,7 @@ func c11RequestUnmodified(c *core.Ctx, rt *ssa.Function) {
 					continue
 				}
 				bad++
-				c.Fail("C11.R7", "RoundTrip/caller-request-passed", x.Pos(), "the caller's *http.Request (not its clone) is passed to "+name+": authorization headers / a rewound body are written into the caller's request")
+				c.Fail(rule, "RoundTrip/caller-request-passed", x.Pos(), "the caller's *http.Request (not its clone) is passed to "+name+": authorization headers / a rewound body are written into the caller's request")
 			}
 		}
 	}
@@ -407,7 +414,7 @@ func c11RequestUnmodified(c *core.Ctx, rt *ssa.Function) {
 	}
 	if !cloned {
 		bad++
-		c.Fail("C11.R7", "RoundTrip/clone", rt.Pos(), "RoundTrip does not clone the caller's request")
+		c.Fail(rule, "RoundTrip/clone", rt.Pos(), "RoundTrip does not clone the caller's request")
 	}
 	for _, ci := range facts.CallsIn(rt) {
 		cc := ci.Common()
@@ -416,12 +423,12 @@ func c11RequestUnmodified(c *core.Ctx, rt *ssa.Function) {
 			isClone := ok && strings.HasSuffix(facts.CalleeName(&call.Call), "http.Request).Clone")
 			if !isClone {
 				bad++
-				c.Fail("C11.R7", "RoundTrip/forward-clone", ci.Pos(), "the request forwarded to the underlying transport is not the clone")
+				c.Fail(rule, "RoundTrip/forward-clone", ci.Pos(), "the request forwarded to the underlying transport is not the clone")
 			}
 		}
 	}
 	if bad == 0 {
-		c.OK("C11.R7", "RoundTrip/caller-request-unmodified", rt.Pos(), "the caller's request is only read and cloned; every mutation and forward uses the clone")
+		c.OK(rule, "RoundTrip/caller-request-unmodified", rt.Pos(), "the caller's request is only read and cloned; every mutation and forward uses the clone")
 	}
 }
 
